@@ -116,7 +116,7 @@ impl Profile {
             force_ready_pm: 30,
             drop_pm: 30,
             dup_pm: 30,
-            election_adversary_pm: 0,
+            election_adversary_pm: 150,
             conf_burst_pm: 150,
             slow_apply_pm: 100,
             conf_heavy_pm: 300,
@@ -403,6 +403,7 @@ impl<'a> Driver<'a> {
             | Action::AppReady { n, .. }
             | Action::Fsync { n, .. }
             | Action::Notify { n }
+            | Action::NotifyOne { n }
             | Action::Apply { n, .. }
             | Action::Propose { n, .. }
             | Action::ProposeBatch { n, .. }
@@ -1318,7 +1319,15 @@ impl<'a> Driver<'a> {
                 self.act(Action::Decommission { n })?;
             }
             Ev::Notify(n) => {
-                self.act(Action::Notify { n })?;
+                if self.rng.pm(400) {
+                    self.act(Action::NotifyOne { n })?;
+                    if self.world.nodes.get(&n).map(|x| !x.notify_queue.is_empty()).unwrap_or(false) {
+                        let d = if self.rng.pm(300) { self.rng.range(5, 80) * MS } else { self.rng.range(50, 3000) };
+                        self.push(d, Ev::Notify(n));
+                    }
+                } else {
+                    self.act(Action::Notify { n })?;
+                }
                 self.schedule_node_work(n);
             }
         }
